@@ -35,7 +35,10 @@ def gen(rng, tier, idx):
     for _ in range(rng.randrange(3, 9)):
         t = qtree.gen_tree(rng, kinds, rng.randrange(1, 5))
         toks = qtree.flat_tokens(t)
-        cmds.append([rng.choice(["apply", "apply", "applyq", "applyraw", "applyops"])] + toks)
+        op = rng.choice(["apply", "apply", "applyq", "applyraw", "applyops"])
+        if t[0] in ("and", "or") and len(t[1]) >= 3 and rng.random() < 0.5:
+            op = "applyshared"      # the same sub-query object reused as operand of two larger queries
+        cmds.append([op] + toks)
         if rng.random() < 0.3:
             cmds.append(["shape"] + toks)
         if rng.random() < 0.3:
@@ -98,6 +101,22 @@ def impl_run(hyp, case):
             elif op == "applyops":
                 q = build_ops(im, t)
                 out.append(qtree.run_ids(lambda: q.execute(optimize=False)))
+            elif op == "applyshared":
+                # base = first two operands; a decoy query is built from `base` first, then the query under
+                # test from the same `base` object: building one query must not change another (seeded C04_A)
+                from hypatia import query as Q
+                if t[0] in ("and", "or") and len(t[1]) >= 3:
+                    ctor = Q.And if t[0] == "and" else Q.Or
+                    kids = [im.build(k) for k in t[1]]
+                    base = ctor(*kids[:2])
+                    decoy = im.build(t[1][-1]).negate()
+                    unused = (base & decoy) if t[0] == "and" else (base | decoy)      # noqa: F841
+                    q = base
+                    for k in kids[2:]:
+                        q = (q & k) if t[0] == "and" else (q | k)
+                else:
+                    q = im.build(t)
+                out.append(qtree.run_ids(lambda: q.execute(optimize=False)))
             elif op == "shape":
                 out.append(" ".join(map(str, im.tokens(im.build(t)))))
             elif op == "negshape":
@@ -110,7 +129,7 @@ def impl_run(hyp, case):
 
 
 def model_cmd(c):
-    if c[0] in ("applyq", "applyraw", "applyops"):
+    if c[0] in ("applyq", "applyraw", "applyops", "applyshared"):
         return ["apply"] + list(c[1:])
     return c
 
